@@ -480,6 +480,8 @@ class UBCalculation:
             if not isinstance(shortform[0], str):
                 raise TypeError("Invalid unit cell parameters specified.")
             self.crystal = Crystal(name, *shortform)
+        if self.U is not None:
+            self.UB = self.U @ self.crystal.B
         if self.name is None:
             raise DiffcalcException(
                 "Cannot set lattice until a UBCalcaluation has been started "
